@@ -93,6 +93,8 @@ def run(sim, params):
     t = sim.tape
     kind = KINDS[t.draw(len(KINDS), "kind")]
     n = t.draw(13, "ntok")
+    if n == 12:
+        n = (12, 13, 20, 24)[t.draw(4, "ntok.big")]
     tags = [f"0.{i}" for i in range(n)]
     tags = t.shuffle(tags, "tagorder")
     nprod = 1 + t.draw(3, "nprod")
@@ -129,7 +131,14 @@ def run(sim, params):
             for r in rules:
                 r["late"] = 0
     prod_of = [t.draw(nprod, "prod.of") for _ in range(n)]
-    cons_start = [t.draw(n + 3, f"c{c}.start") for c in range(ncons)]
+    # consumers subscribe after k puts; half of them late in the history (long replays racing
+    # with the remaining puts)
+    cons_start = []
+    for c in range(ncons):
+        k = t.draw(n + 3, f"c{c}.start")
+        if t.draw(2, f"c{c}.late") and n >= 4:
+            k = max(k, n - 1 - t.draw(3, f"c{c}.back"))
+        cons_start.append(k)
     info = {"kind": kind, "tags": tags, "rules": rules, "nprod": nprod, "cons_start": cons_start, "filter_mod": filter_mod}
 
     async def scenario(late_registration: bool):
